@@ -112,6 +112,7 @@ structure State where
   handed : List Nat := []              -- async calls in the order their completion was determined
   arrCanon : List Nat := []            -- driver only: arrivals with the completions of one action sorted (no pipelining: their order is a race)
   decHeld : Bool := false               -- driver only: the decode worker is parked at the harness gate `dec`
+  badBody : List Nat := []              -- driver only: calls whose reply body the body codec will refuse to decode
   invOk : Bool := true                 -- driver only: the run-time invariant check never failed on the way here
 
 def init (cfg : Cfg) : State := { cfg := cfg }
